@@ -627,3 +627,40 @@ def c11(ck):
             ck.report(key, "data race between two accesses in jig/lisp code", {"case": {"kind": "race", "report": text}})
     ck.extra["race_reports_in_repo_code"] = len(races)
     ck.exhaustive = True
+
+
+@check("C07")
+def c07(ck):
+    import re
+    ck.rule = ("model: Cancel.tla (loop-top poll, context-aware blocking builtins, try body under a child budget, handler and "
+               "finally under the parent context) checked by TLC over 86 program shapes (endless tail loop, non-tail "
+               "recursion, macro expansion, long sleep, deref of a sleeping future; bare and as body / handler / finally of "
+               "try forms nested up to depth 2) with Cancel (or budget / deadline expiry) explored at EVERY step: bounded "
+               "iterations after the context ends, ended ~> done. real code: every shape x 12 cancellation instants, the real "
+               "context cancelled by the loop-top hook at the k-th iteration (or while parked in a blocking builtin): must "
+               "return, within the model's iteration bound; every shape under a real 1.2 s deadline: back by deadline+slack "
+               "(three attempts), handler value returned when the model says the handler runs")
+    cases = []
+    for mode in ("cancel", "deadline"):
+        c = cfg(constants={"ModeC": '"%s"' % mode}, invariants=["PromptAfterCancel"], props=["EndedLeadsToDone"])
+        r = ck.tlc("GenC07", c, timeout=900)
+        ck.tlc_ok(r, "GenC07 " + mode)
+        cases += r.cases
+    for c in cases:
+        c["id"] = "%s:%d" % (c["mode"], c["shape"])
+        if c["mode"] == "deadline":
+            src = c["src"]
+            # the outermost try has a plain-value handler, an endless body and no endless finally: the handler's value
+            m = re.match(r"^\(try (\(lp 0\)|\(rcl\)|\(spin\)|\(sleep 100000\)|@\(future \(sleep 100000\)\)) \(catch e :h\)( \(finally :h\))?\)$", src)
+            if m:
+                c["opt"] = {"expect": "value"}
+            elif "try" not in src:
+                c["opt"] = {"expect": "timeout"}
+    canc = [c for c in cases if c["mode"] == "cancel"]
+    dl = [c for c in cases if c["mode"] == "deadline"]
+    if ck.quick:
+        dl = dl[::3] + [c for c in dl if c.get("opt", {}).get("expect") == "value"][:4]
+        dl = list({c["id"]: c for c in dl}.values())
+    ck.replay(canc, args=["-workers", "1"], timeout=3000)
+    ck.replay(dl, args=["-workers", "48"], timeout=3000, double_check=False)
+    ck.exhaustive = True
